@@ -22,9 +22,9 @@ import (
 	"strings"
 	"time"
 
+	simtestutil "github.com/cosmos/cosmos-sdk/testutil/sims"
 	sdk "github.com/cosmos/cosmos-sdk/types"
 	sdkmempool "github.com/cosmos/cosmos-sdk/types/mempool"
-	simtestutil "github.com/cosmos/cosmos-sdk/testutil/sims"
 	banktypes "github.com/cosmos/cosmos-sdk/x/bank/types"
 	palomamempool "github.com/palomachain/paloma/v2/app/mempool"
 	constypes "github.com/palomachain/paloma/v2/x/consensus/types"
@@ -400,7 +400,7 @@ type engine struct {
 	tick     int
 
 	seqs, maxSeqs, states, selects, opsExec, skipped, deferred int64
-	sampled                                          int
+	sampled                                                    int
 }
 
 // canonical reports whether path is the canonical way to reach its pool
